@@ -177,6 +177,7 @@ def one(R, rnd, workdir, idx):
         fsout.dump_json(metabook=metabook.Collection())
         fsout.nfo = {"format": "nuwiki", "base_url": "http://w.test/w/", "script_extension": ".php"}
         i = 0
+        pageids = {}
         while i < len(events):
             k = rnd.randint(1, 4)
             batch = events[i:i + k]
@@ -188,7 +189,8 @@ def one(R, rnd, workdir, idx):
                 continue
             data = {"pages": {}}
             for j, (t, r, x) in enumerate(batch):
-                p = data["pages"].setdefault(str(abs(hash(t)) % 10 ** 6), {"title": t, "ns": meta[t][0], "revisions": []})
+                # (page ids: one per title - a hash of the title can collide and merge two pages in the harness)
+                p = data["pages"].setdefault(str(pageids.setdefault(t, len(pageids) + 1)), {"title": t, "ns": meta[t][0], "revisions": []})
                 p["revisions"].append({"revid": r, "*": x} if r is not None else {"*": x})
             fsout.write_pages(data)
             history.append(["pages", [[t, r] for t, r, _ in batch]])
